@@ -743,6 +743,40 @@ def f(ctx):
 
 
 # ---------------------------------------------------------------------------
+
+@R.clause("C13.g", "_load: an empty replay window is assumed only when no state file exists; a window read from the file is exactly what was persisted")
+def g_load_window(ctx):
+    """Added after an independently written breaking change initialised an empty window for a file whose persisted
+    window was all-null (what a clean stop writes for a context still waiting for its Echo exchange): every request
+    seen before the crash was then accepted again.  Necessary condition: in _load the only initialiser reachable
+    after sequence.json has been read is initialize_from_persisted(<the file's entry>); initialize_empty (and any
+    direct store to the window's fields) is confined to the path on which opening the file failed with
+    FileNotFoundError."""
+    fi = ctx.prog.func("oscore.FilesystemSecurityContext._load")
+    cfg = cfg_of(fi)
+    opens = [c for c in calls_in(fi.node) if call_name(c) == "open" and any(isinstance(x, ast.Constant) and x.value == "sequence.json" for x in ast.walk(c))]
+    ctx.ob("_load opens sequence.json", len(opens) == 1, fi, opens[0] if opens else fi.node, construct="_load: open(sequence.json)")
+    if len(opens) != 1:
+        return
+    on = cfg.loc1(opens[0])
+    hnodes = [d for d, lab in cfg.succ[on] if lab == "exc" and cfg.nodes[d].kind == "handler"]
+    nofile = [h for h in hnodes if cfg.nodes[h].ast.type is not None and chain(cfg.nodes[h].ast.type) in ("FileNotFoundError",)]
+    ctx.ob("a missing state file is handled separately (FileNotFoundError)", len(nofile) == 1, fi, opens[0])
+    inits = [c for c in calls_in(fi.node) if isinstance(c.func, ast.Attribute) and c.func.attr in ("initialize_empty", "initialize_from_freshlyseen", "initialize_from_persisted")]
+    ctx.floor("window initialisers in _load", len(inits), 2)
+    for c in inits:
+        nid = cfg.loc1(c)
+        in_nofile = any(cfg.dominates(h, nid) for h in nofile)
+        if c.func.attr == "initialize_empty":
+            ctx.ob("an empty replay window is assumed only when no state file exists", in_nofile, fi, c)
+        elif c.func.attr == "initialize_from_persisted":
+            ctx.ob("the persisted window is restored only from a file that was read", not in_nofile and not any(nid in cfg.reach({h}) for h in nofile), fi, c)
+        else:
+            ctx.ob("_load never marks a number as freshly seen", False, fi, c)
+    direct = [n for n in walk_no_nested(fi.node) if isinstance(n, (ast.Assign, ast.AugAssign)) and any(isinstance(t, ast.Attribute) and t.attr in ("_index", "_bitfield") for t in (n.targets if isinstance(n, ast.Assign) else [n.target]))]
+    ctx.ob("_load does not write the window's fields directly", not direct, fi, direct[0] if direct else fi.node, construct=stmt_text(direct[0]) if direct else "_load: direct window stores")
+
+
 F_ = "aiocoap/oscore.py"
 R.seed("C13.a", F_, "        if retval >= MAX_SEQNO:", "        if retval > MAX_SEQNO:", ">= -> > in the exhaustion test")
 R.seed("C13.a", F_, "MAX_SEQNO = 2**40 - 1", "MAX_SEQNO = 2**40", "limit one too high")
@@ -797,3 +831,6 @@ R.seed("C13.e", F_, "            self.recipient_replay_window.initialize_empty()
 R.seed("C13.f", F_, "        self._store()\n\n        del self.sender_key\n        del self.recipient_key\n\n        os.unlink(self.lockfile.lock_file)\n        self.lockfile.release()\n", "        del self.sender_key\n        del self.recipient_key\n\n        os.unlink(self.lockfile.lock_file)\n        self.lockfile.release()\n        self._store()\n", "stored after the lock was released")
 R.seed("C13.f", F_, "        self.replay_window_persisted = True\n        self.sequence_number_persisted = self.sender_sequence_number\n        self._store()", "        self.replay_window_persisted = True\n        self.sequence_number_persisted = self.sender_sequence_number - 1\n        self._store()", "last-used instead of next-to-send written on shutdown")
 R.seed("C13.f", F_, "        self.sequence_number_persisted = self.sender_sequence_number\n        self._store()\n\n        del self.sender_key", "        self.sequence_number_persisted = self.sender_sequence_number\n        try:\n            self._store()\n        except OSError:\n            pass\n\n        del self.sender_key", "lock released although the final store failed")
+
+R.seed("C13.g", F_, "                self.replay_window_persisted = True\n\n    # This is called internally", "                if not self.recipient_replay_window.is_initialized():\n                    self.recipient_replay_window.initialize_empty()\n                self.replay_window_persisted = True\n\n    # This is called internally", "all-null persisted window (clean stop while waiting for Echo) becomes an empty window")
+R.seed("C13.g", F_, "                # The replay window will stay uninitialized, which triggers\n                # Echo recovery\n                self.replay_window_persisted = False", "                self.recipient_replay_window.initialize_empty()\n                self.replay_window_persisted = False", "unknown state treated as nothing seen")
